@@ -250,6 +250,7 @@ def judgeLine (s0 : JState) (line : String) : JState :=
             else s.flag s!"move_or_destruct-outside-destruct {line}"
           else if k == "act" then s   -- a command reached the action of a live object (checked above)
           else if k == "id" then s    -- present() asks a live object
+          else if k == "hbeat" then s -- the backend tick calls a live object (checked above: called-while-destructed)
           else s.flag s!"unexpected-line {line}"
         { s with frames := Frame.hook x :: s.frames }
       | none => s.flag s!"unexpected-line {line}"
@@ -346,12 +347,20 @@ def judgeLine (s0 : JState) (line : String) : JState :=
       if (k == "1") != (jOid v).isSome then s.flag s!"found-destructed find_living returned an object that is not live: {line}" else s
     | ["r", op, a, res] =>
       -- ec / dc
-      if op == "ec" || op == "dc" then
+      if op == "ec" || op == "dc" || op == "hbe" || op == "hbd" then
         let s := stepEvent s
         if res == "ok" then useLive s "command-enable" line (jOid a) else s
       else s.flag s!"unexpected-line {line}"
-    | "err" :: _ => { stepEvent s with frames := [] }
+    | "err" :: rest =>
+      -- "Only this_object() can be destructed from move_or_destruct": legitimate only while an outer destruct is
+      -- running its move_or_destruct hooks (a stale restriction after an error would refuse ordinary destructs)
+      let nDest := (s.frames.filter (fun f => match f with | Frame.dest _ => true | _ => false)).length
+      let s := if rest.headD "" == "*Only" && nDest < 2 then s.flag s!"destruct-refused outside move_or_destruct: {line}" else s
+      { stepEvent s with frames := [] }
     | ["r", "top", "!err"] => s
+    | ["r", "tick", "!err"] => s
+    | "hb-stale-slot" :: _ => s.flag s!"called-while-destructed {line}"
+    | "hb-stale-object" :: _ => s.flag s!"called-while-destructed {line}"
     | ["r", "probe", "!err"] => s.flag s!"probe-error {line}"
     | "P" :: "objects" :: rest =>
       let l := jIds (rest.headD "")
@@ -359,6 +368,12 @@ def judgeLine (s0 : JState) (line : String) : JState :=
       if s.sFresh then
         let want := (s.sLive.map (·.id)).filter (· ≥ 2)
         if want.all l.contains && l.all want.contains && !hasDup l then s else s.flag s!"objects-mismatch {line}"
+      else s
+    | "P" :: "heartbeats" :: rest =>
+      let l := jIds (rest.headD "")
+      let s := l.foldl (fun s i => useLive s "heart_beats()" line (some i)) s
+      if s.sFresh then
+        if l.all (fun i => (s.sLive.map (·.id)).contains i) && !hasDup l then s else s.flag s!"heartbeats-mismatch {line}"
       else s
     | "P" :: "livings" :: rest =>
       let l := jIds (rest.headD "")
